@@ -826,12 +826,31 @@ class Exec:
                 return
             if isinstance(base, Mat):
                 self.frame_store(st, name, line)
+                if isinstance(tgt.slice, ast.Tuple) and isinstance(tgt.slice.elts[0], ast.Slice) and tgt.slice.elts[0].lower is None \
+                        and tgt.slice.elts[0].upper is None and tgt.slice.elts[0].step is None:
+                    c_ = toint(self.ev(tgt.slice.elts[1], st))            # a[:, c] = scalar : every row gets the value in column c
+                    self.index_ok(st, c_, base.cols, line)
+                    new2 = fresh(name, A2)
+                    r = fresh("r")
+                    st.assume(z3.ForAll([r], new2[r] == z3.Store(base.arr2[r], c_, toint(v)), patterns=[new2[r]]))
+                    st.env[name] = Mat(new2, base.rows, base.cols, base.dtype)
+                    return
                 if isinstance(tgt.slice, ast.Tuple):
                     r_, c_ = [toint(self.ev(x, st)) for x in tgt.slice.elts]
                     self.index_ok(st, r_, base.rows, line)
                     self.index_ok(st, c_, base.cols, line)
                     st.env[name] = base.store(r_, c_, toint(v))
                     return
+                r_ = toint(self.ev(tgt.slice, st))                           # a[r] = row / scalar
+                self.index_ok(st, r_, base.rows, line)
+                if isinstance(v, Seq):
+                    self.may_raise(st, "ValueError", v.n != base.cols, f"row-length:{self.ordinal('rowlen')}", line)
+                    if v.delta != 0 or lit(v.start) != 0:
+                        raise Unsupported("row assignment from a shifted view")
+                    st.env[name] = base.store_row(r_, v.arr)
+                else:
+                    st.env[name] = base.store_row(r_, z3.K(I, toint(v)))
+                return
         # name[i][j] = v   (write through a row view)
         if isinstance(tgt.value, ast.Subscript) and isinstance(tgt.value.value, ast.Name):
             name = tgt.value.value.id
@@ -947,6 +966,8 @@ class Exec:
                 for a_ in x.args:
                     if isinstance(a_, ast.Name):
                         names.add(a_.id)
+            if isinstance(x, ast.Call) and isinstance(x.func, ast.Attribute) and isinstance(x.func.value, ast.Name) and x.func.value.id == "random":
+                names.add("__rng__")          # the global generator's state changes
         return names
 
     def havoc_value(self, name, old):
@@ -966,6 +987,9 @@ class Exec:
         return old
 
     def havoc(self, st, names):
+        if "__rng__" in names and "__rng__" not in st.env:
+            from pyvc import library
+            library.rng_state(self, st)
         for nme in sorted(names):
             if nme in st.env:
                 v = self.havoc_value(nme, st.env[nme])
